@@ -21,7 +21,9 @@ def spec_of(op, mo):
         return ("err", sp.get("err"))
     if op["op"] in ("event", "searchRules"):
         if "ok" in sp:
-            return ("ok", canon(sorted(canon({"id": f["id"], "bss": multiset(sort_arrays(f["bss"]))}) for f in sp["ok"])))
+            # the names ?event/?location/?ruleId are compared on the condition nodes (impl vs model), not here: the real tree reports
+            # the when-bindings after the defaults were added to them
+            return ("ok", canon(sorted(canon({"id": f["id"], "bss": multiset(sort_arrays([strip_builtin(b) for b in f["bss"]]))}) for f in sp["ok"])))
         return ("err", sp.get("err"))
     return None
 
